@@ -108,3 +108,19 @@ func VerifC03_type3_finalize_index() {
 	}
 }
 
+
+// well-formed, correctly signed and encrypted requests for every short origin name (including the
+// empty one and unregistered ones): Evaluate answers with a response or an error, never a panic
+func VerifC03_type3_evaluate_honest_origins() {
+	vUnwind(40)
+	vUseModels("ecapi")
+	name := vBytesC("origin", 0, 2)
+	reg := vBytesC("registered", 0, 2)
+	issuer, _, wire := c07Honest(string(name), string(reg))
+	_, _, err := issuer.Evaluate(wire)
+	if err == nil {
+		vReach("served")
+	} else {
+		vReach("refused")
+	}
+}
